@@ -2,7 +2,8 @@
 (***************************************************************************)
 (* C05 / C07 / C31 - what a workbook computes is a function of its cells.   *)
 (*                                                                         *)
-(* A small workbook: a column A1..AN on Sheet1 and one cell on Sheet2.      *)
+(* A small workbook: a column A1..AN and B1, C1 on Sheet1, one cell on      *)
+(* Sheet2.                                                                  *)
 (* A cell holds nothing, a number, or a formula: a reference, a sum of two  *)
 (* references, SUM over the whole column, IF(c>0, a, b) (lazy), or the      *)
 (* dynamic array SEQUENCE(c) whose height is the value of another cell.     *)
@@ -26,9 +27,13 @@ EXTENDS Integers, Sequences, FiniteSets, TLC, Json
 CONSTANTS N,          \* cells A1..AN of Sheet1; cell N+1 is Sheet2!A1
           MaxSteps
 
-Cells == 1..(N + 1)
+Cells == 1..(N + 3)
 Col == 1..N
-X == N + 1
+X == N + 1           \* Sheet2!A1
+RowB == N + 2        \* Sheet1!B1 and C1: where a horizontal array at A1 spills
+RowC == N + 3
+RowCells == {RowB, RowC}
+ColIdx(c) == c - N   \* B1 -> 2, C1 -> 3
 
 (* ---- contents ------------------------------------------------------------- *)
 C(k, a, b, c, v) == [k |-> k, a |-> a, b |-> b, c |-> c, v |-> v]
@@ -39,6 +44,7 @@ AddC(a, b) == C("add", a, b, 0, 0)
 SumC == C("sum", 0, 0, 0, 0)
 IfC(c, a, b) == C("if", a, b, c, 0)
 SeqC(a) == C("seq", a, 0, 0, 0)
+SeqHC(a) == C("seqh", a, 0, 0, 0)         \* SEQUENCE(1, a): spills to the right
 
 (* ---- values --------------------------------------------------------------- *)
 NumV(n) == [t |-> "n", n |-> n, e |-> ""]
@@ -53,13 +59,13 @@ VARIABLES content, trail, steps
 vars == <<content, trail, steps>>
 
 (* ---- the value function ----------------------------------------------------- *)
-RECURSIVE Val(_, _, _), Height(_, _, _), SpillAt(_, _, _), SumFrom(_, _, _, _)
+RECURSIVE Val(_, _, _), Height(_, _, _), SpillAt(_, _, _), SumFrom(_, _, _, _), Width(_, _), RowSpillAt(_, _, _)
 
 (* the value cell c shows, given the cells whose evaluation is in progress *)
 Val(ct, c, st) ==
   IF c \in st THEN ErrV("CIRC")
   ELSE LET x == ct[c]  st2 == st \cup {c} IN
-    CASE x.k = "empty" -> IF c \in Col THEN SpillAt(ct, c, st) ELSE EmptyV
+    CASE x.k = "empty" -> IF c \in Col THEN SpillAt(ct, c, st) ELSE IF c \in RowCells THEN RowSpillAt(ct, c, st) ELSE EmptyV
       [] x.k = "num" -> NumV(x.v)
       [] x.k = "ref" -> AsNum(Val(ct, x.a, st2))
       [] x.k = "add" -> LET l == AsNum(Val(ct, x.a, st2))  r == AsNum(Val(ct, x.b, st2)) IN
@@ -68,6 +74,7 @@ Val(ct, c, st) ==
       [] x.k = "if" -> LET cnd == AsNum(Val(ct, x.c, st2)) IN
                        IF IsE(cnd) THEN cnd ELSE IF cnd.n > 0 THEN AsNum(Val(ct, x.a, st2)) ELSE AsNum(Val(ct, x.b, st2))
       [] x.k = "seq" -> LET h == Height(ct, c, st2) IN IF IsE(h) THEN h ELSE NumV(1)
+      [] x.k = "seqh" -> LET w == Width(ct, st2) IN IF IsE(w) THEN w ELSE NumV(1)
 
 (* SUM(A1:AN): errors propagate (first in order), empty cells add nothing *)
 SumFrom(ct, i, st, acc) ==
@@ -83,6 +90,19 @@ Height(ct, a, st) ==
   ELSE IF n.n <= 0 THEN ErrV("ERR")
   ELSE IF a \in Col /\ \E j \in 1..(n.n - 1) : a + j <= N /\ ct[a + j].k # "empty" THEN ErrV("SPILL")
   ELSE NumV(n.n)
+
+(* the number of columns SEQUENCE(1, n) at A1 fills, or the error it shows *)
+Width(ct, st) ==
+  LET n == AsNum(Val(ct, ct[1].a, st)) IN
+  IF IsE(n) THEN (IF n.e = "CIRC" /\ ct[1].a \in RowCells THEN ErrV("NOV") ELSE n)
+  ELSE IF n.n <= 0 THEN ErrV("ERR")
+  ELSE IF \E j \in 2..n.n : j <= 3 /\ ct[N + j].k # "empty" THEN ErrV("SPILL")
+  ELSE NumV(n.n)
+RowSpillAt(ct, c, st) ==
+  IF ct[1].k # "seqh" THEN EmptyV
+  ELSE LET w == Width(ct, st \cup {c}) IN
+       IF IsE(w) THEN (IF w.e \in {"NOV", "CIRC"} THEN ErrV("NOV") ELSE EmptyV)
+       ELSE IF w.n >= ColIdx(c) THEN NumV(ColIdx(c)) ELSE EmptyV
 
 (* an empty cell of the column: the element of the one spill that covers it, or nothing *)
 SpillAt(ct, c, st) ==
@@ -104,15 +124,18 @@ Competing(ct) ==
 Shown(ct) == IF Competing(ct) THEN [c \in Cells |-> ErrV("NOV")] ELSE [c \in Cells |-> Val(ct, c, {})]
 (* which cells belong to a spill: 0 = no, otherwise the anchor *)
 SpillOwner(ct) ==
-  [c \in Cells |-> IF c \notin Col \/ ct[c].k # "empty" THEN 0
+  [c \in Cells |-> IF c \in RowCells
+                     THEN (IF ct[c].k = "empty" /\ ct[1].k = "seqh" /\ Width(ct, {}).t = "n" /\ Width(ct, {}).n >= ColIdx(c) THEN 1 ELSE 0)
+                   ELSE IF c \notin Col \/ ct[c].k # "empty" THEN 0
                    ELSE LET cov == {a \in 1..(c - 1) : ct[a].k = "seq" /\ Height(ct, a, {}).t = "n" /\ a + Height(ct, a, {}).n - 1 >= c} IN
                         IF Cardinality(cov) = 1 THEN CHOOSE a \in cov : TRUE ELSE 0]
 
 (* ---- editing histories --------------------------------------------------------- *)
 Targets == Cells
 Menu(c) ==
+  IF c \in RowCells THEN {EmptyC, NumC(2), RefC(1), RefC(X)} ELSE
   {EmptyC, NumC(0), NumC(2), NumC(3)} \cup {RefC(a) : a \in Cells} \cup {AddC(a, b) : a \in {1, 2}, b \in {3, X}}
-  \cup {SumC} \cup {IfC(X, 1, 2), IfC(1, c, 3), IfC(2, 3, c)} \cup {SeqC(a) : a \in {1, X}} \cup (IF c = 1 THEN {SeqC(2)} ELSE {})
+  \cup {SumC} \cup {IfC(X, 1, 2), IfC(1, c, 3), IfC(2, 3, c)} \cup {SeqC(a) : a \in {1, X}} \cup (IF c = 1 THEN {SeqC(2), SeqHC(X), SeqHC(2)} ELSE {})
 
 RInit == content = [c \in Cells |-> EmptyC] /\ trail = <<>> /\ steps = 0
 SetCell(c, x) ==
@@ -125,10 +148,10 @@ RSpec == RInit /\ [][RNext]_vars
 
 (* ---- the statement on the design ------------------------------------------------- *)
 (* C05: a formula shows #CIRC! only if it is on a cycle or reads a cell that shows it *)
-Reads(ct, c) == LET x == ct[c] IN CASE x.k = "ref" -> {x.a} [] x.k = "add" -> {x.a, x.b} [] x.k = "sum" -> Col [] x.k = "if" -> {x.a, x.b, x.c} [] x.k = "seq" -> {x.a} [] OTHER -> {}
+Reads(ct, c) == LET x == ct[c] IN CASE x.k = "ref" -> {x.a} [] x.k = "add" -> {x.a, x.b} [] x.k = "sum" -> Col [] x.k = "if" -> {x.a, x.b, x.c} [] x.k = "seq" -> {x.a} [] x.k = "seqh" -> {x.a} [] OTHER -> {}
 RECURSIVE Reach(_, _, _)
 Reach(ct, S, k) == IF k = 0 THEN S ELSE Reach(ct, S \cup UNION {Reads(ct, c) : c \in S}, k - 1)
-OnCycleOrReadsOne(ct, c) == \E d \in Reach(ct, {c}, N + 1) : d \in Reach(ct, Reads(ct, d), N + 1)
+OnCycleOrReadsOne(ct, c) == \E d \in Reach(ct, {c}, N + 3) : d \in Reach(ct, Reads(ct, d), N + 3)
 CircOnlyOnCycles == \A c \in Cells : LET v == Shown(content)[c] IN (IsE(v) /\ v.e = "CIRC") => OnCycleOrReadsOne(content, c)
 (* C31: a spilled value sits only where its formula's current result puts it, never on user content *)
 SpillsExact == \A c \in Cells : SpillOwner(content)[c] # 0 => (content[c].k = "empty" /\ Shown(content)[c].t \in {"n", "e"})
